@@ -372,7 +372,7 @@ def gen_cases(ctx):
                 fam = rng.choice(COLLIDING) if g["B"] and rng.random() < 0.8 else rng.choice(FAMILIES)
                 yield mk_case(rng, g, fam, "exh4", True, rng.sample(aq, 3), cls=CLS[gi % len(CLS)])
     # (ii) structured random, n <= 7
-    N = 2500 if tier == "quick" else 25000
+    N = 4000 if tier == "quick" else 40000
     for i in range(N):
         n = rng.choice((2, 3, 4, 5, 5, 6, 6, 7, 7))
         kind = rng.random()
